@@ -142,7 +142,16 @@ class C03(Prop):
         from ..ref import replies as _rp
 
         recs = [_rp.schedule_record(k2, r.choice([0, 2, 0x54, 0xFE]), 1_700_000_000 + k2 * 3600, 1_700_003_600 + k2 * 3600) for k2 in range(r.randrange(0, 9))]
-        self.dev.responder = td.auto_responder(thermostat=reported, family=lambda conn: family.get(conn.id, "thermostat"), rnd=r, schedule_records=recs)
+        healthy_dev = td.auto_responder(thermostat=reported, family=lambda conn: family.get(conn.id, "thermostat"), rnd=r, schedule_records=recs)
+        inject = {"conn": None, "at": None, "bytes": None}
+
+        def responder(conn, idx, frame):
+            if inject["conn"] is conn and idx == inject["at"] and frames.classify(frame) not in ("login", "login2"):
+                inject["conn"] = None
+                return inject["bytes"]
+            return healthy_dev(conn, idx, frame)
+
+        self.dev.responder = responder
         zone = r.choice(env.ZONES)
         clock.set_zone(zone)   # nothing on the wire depends on the host zone
         t0 = float(r.randrange(1_000_000, 4_000_000_000)) + r.choice([0.0, 0.2, 0.8])
@@ -223,9 +232,16 @@ class C03(Prop):
                         cl.reset_at = len(records[idx])
                         continue
                     family[cl.conn.id] = "shutter" if st["op"] == "get_shutter_state" else "thermostat"
+                    if len(clients) == 1 and cancel_plan is None and r.random() < 0.12:
+                        # one reply of this operation (after its login) is useless: truncated, garbage, a lone zero byte; the connection
+                        # stays up and the operations after it are exchanges of their own
+                        inject.update(conn=cl.conn, at=len(cl.conn.frames) + r.randrange(1, 3), bytes=r.choice([b"\x00", r.randbytes(r.randrange(1, 60)), bytes(40)]))
+                        st = dict(st, faulty_reply=True)
+                        acc.count("operations_with_a_useless_reply_in_mid_history")
                     n_sess = len(cl.conn.sessions)
                     t_start = time.time()
                     rec = await cl.run(st["op"], st["args"], self.remotes[st["remote"]])
+                    inject["conn"] = None       # a useless reply planned for this operation does not spill over into the next
                     t_end = time.time()
                     # let the device log the frames of this op before the next one starts
                     await td.settle(cl.conn, sum(len(w) for w in cl.spy.writes))
@@ -267,7 +283,16 @@ class C03(Prop):
                 await self._slow_reply(acc)
 
         self.dev.gate = gate
-        tasks = [asyncio.ensure_future(run_client(i)) for i in range(len(clients))]
+        if r.random() < 0.5:
+            # an application whose task factory runs everything in ONE contextvars.Context
+            import contextvars
+
+            shared = contextvars.copy_context()
+            loop = asyncio.get_running_loop()
+            tasks = [loop.create_task(run_client(i), context=shared) for i in range(len(clients))]
+            acc.count("interleaved_histories_in_one_shared_context")
+        else:
+            tasks = [asyncio.ensure_future(run_client(i)) for i in range(len(clients))]
         conn_name = {cl.conn.id: "AB"[i] for i, cl in enumerate(clients)}
         spins = 0
         while not all(t.done() for t in tasks):
@@ -351,6 +376,8 @@ class C03(Prop):
                     if not (ts == ts0 or (ts0 <= ts <= int(round(t_end)) and ts not in others)):
                         acc.violation("timestamp-leak", f"{tag}: {k} frame carries ts {ts}; login read {ts0}, op window ends {t_end}",
                                       {"op": op, "ts": ts, "login_ts": ts0, "foreign": ts in others})
+                if st.get("faulty_reply"):
+                    continue      # how far an operation gets after a useless reply is not judged here; the operations after it are
                 # number and order of frames
                 w2 = dict(world, irset=self.irsets[st["remote"]])
                 exp = ops.expect(op, st["args"], w2)
